@@ -2438,9 +2438,6 @@ DLLIMPORT cfg_t *cfg_addtsec(cfg_t *cfg, const char *name, const char *title)
 	cfg_opt_t *opt;
 	cfg_value_t *val;
 
-	if (cfg_gettsec(cfg, name, title))
-		return NULL;
-
 	opt = cfg_getopt(cfg, name);
 	if (!opt) {
 		cfg_error(cfg, _("no such option '%s'"), name);
@@ -2450,6 +2447,9 @@ DLLIMPORT cfg_t *cfg_addtsec(cfg_t *cfg, const char *name, const char *title)
 		errno = EINVAL;
 		return NULL;
 	}
+	/* one lookup only: a failed first lookup must not read as "no such title yet" */
+	if (title && cfg_opt_gettsec(opt, title))
+		return NULL;
 	val = cfg_setopt(cfg, opt, title);
 	if (!val)
 		return NULL;
